@@ -72,9 +72,9 @@ func runStorm(sc *fscript, _ *fgen) *finding {
 		collectStats(x.l, sc.Rig)
 		noteWait(x.maxWait)
 		if x.s != nil {
-			run.Add("handler-starts", x.s.starts)
+			run.Add("handler-starts", x.s.nStarts())
 		} else {
-			run.Add("transport-requests", x.t.starts)
+			run.Add("transport-requests", x.t.nStarts())
 		}
 	}()
 	l := x.l
@@ -169,7 +169,7 @@ func runStorm(sc *fscript, _ *fgen) *finding {
 	run.Add("fences", 3)
 	for _, s := range x.streams {
 		if deadSid[s.sid] {
-			s.dead = true
+			x.kill(s)
 		}
 	}
 	if f := x.step(fop{K: "drain"}); f != nil {
